@@ -32,3 +32,15 @@ impl DirtyLines {
             .collect()
     }
 }
+
+#[cfg(avt_verif)]
+impl DirtyLines {
+    // verification hook
+    pub(crate) fn verif_state(&self, out: &mut String) {
+        out.push_str(&format!("{} ", self.0.len()));
+
+        for d in &self.0 {
+            out.push_str(if *d { "1 " } else { "0 " });
+        }
+    }
+}
